@@ -17,4 +17,4 @@ for _, bad in res:
     for b in bad[:int(os.environ.get("SHOW", "10"))]:
         print(json.dumps(b)[:1500])
     print(len(bad), "bad")
-ctx.cleanup()
+print([s for s in ctx.cov["stages"]][-1]); ctx.cleanup()
